@@ -32,7 +32,7 @@ Init == /\ l = 1 /\ model = NoModel /\ stored = {} /\ bad = <<>>
 Ev1 == Trace[l]
 IsEvent(e) == l <= Len(Trace) /\ Trace[l].e = e /\ l' = l + 1
 
-OKs == {"OK_T", "OK_F", "OK_ERR", "OK_ERR_DECIDED","OK_LO", "OK_LO_ERR", "OK_LO_ERR_OTHERCODE", "OK_LO_LIMIT", "OK_LU", "OK_LU_ERR", "OK_EXPAND", "OK_DUMP", "OK_BATCH", "OK_V2_SHAPE_ERR", "OK_V2_DOCUMENTED_DIFF", "OK_V2_SAME_AS_V1",
+OKs == {"OK_T", "OK_F", "OK_ERR", "OK_ERR_DECIDED", "OK_STALE_PERMITTED","OK_LO", "OK_LO_ERR", "OK_LO_ERR_OTHERCODE", "OK_LO_LIMIT", "OK_LU", "OK_LU_ERR", "OK_EXPAND", "OK_DUMP", "OK_BATCH", "OK_V2_SHAPE_ERR", "OK_V2_DOCUMENTED_DIFF", "OK_V2_SAME_AS_V1",
         "SKIP_DEPTH", "SKIP_UNSTRATIFIED"}
 
 Bump(c, cls) == [x \in DOMAIN c \cup {cls} |-> IF x = cls THEN (IF x \in DOMAIN c THEN c[x] ELSE 0) + 1 ELSE c[x]]
@@ -98,10 +98,24 @@ AllTuples(ev) == stored \cup SeqToSet(ev.ctxt)
 \* some valid conditional tuple of the case cannot be evaluated under ctx
 AnyE(M, TS, ctx) == \E t \in TS : t.c # "" /\ TupleReadValid(M, t) /\ CondVal(M, t, ctx) = "E"
 
+\* Two valid tuples relate the SAME object and relation to the subject (e.g. one naming
+\* the user, one the typed wildcard) and their conditions evaluate differently under the
+\* request context, on a relation the evaluation may read: the weight-two strategy
+\* mishandles this shape inside an exclusion (known finding KF-10).
+MixedCondPair(M, TS, ctx, o, r, u) ==
+  LET rk == TReadKeys(M, o.t, r)
+      matchesU(t) == t.u = u \/ (IsWild(t.u) /\ IsPlain(u) /\ t.u.t = u.t)
+  IN \E t1, t2 \in TS :
+       /\ t1 # t2 /\ t1.o = t2.o /\ t1.r = t2.r /\ <<t1.o.t, t1.r>> \in rk
+       /\ TupleReadValid(M, t1) /\ TupleReadValid(M, t2) /\ matchesU(t1) /\ matchesU(t2)
+       /\ CondVal(M, t1, ctx) # CondVal(M, t2, ctx)
+
 CheckClass(M, TS, ev) ==
   LET ref == Holds(M, TS, ev.ctx, ev.o, ev.r, ev.u) IN
   IF DepthBound(M, TS, ev.o, ev.r) > DepthLimit THEN <<"SKIP_DEPTH", ref>>
-  ELSE CASE ev.got = "T" -> IF ref = "T" THEN <<"OK_T", ref>> ELSE <<"BAD_ALLOWED", ref>>
+  ELSE CASE ev.got = "T" -> IF ref = "T" THEN <<"OK_T", ref>>
+                            ELSE IF ref = "F" /\ MixedCondPair(M, TS, ev.ctx, ev.o, ev.r, ev.u) THEN <<"KF_Weight2MixedCondSameObject", ref>>
+                            ELSE <<"BAD_ALLOWED", ref>>
          [] ev.got = "F" -> IF ref = "F" THEN <<"OK_F", ref>>
                             ELSE IF ref = "T" THEN
                                    IF SubCycle(M, TS, ev.o, ev.r) THEN <<"KF_ExclSubtractCycle", ref>>
@@ -125,10 +139,38 @@ TrSetup ==
 \* A Check event may carry "solo": the outcome of the same request issued as a
 \* standalone Check in the same run (BatchCheck items, C07; AuthZEN evaluations, C32).
 \* The two outcomes must agree, and the reported one is judged against the reference.
+\* ApiWrite: a successful Write through the API (the drivers issue only valid requests
+\* that succeed): deletes by key, then writes.
+SameKey(a, b) == a.o = b.o /\ a.r = b.r /\ a.u = b.u
+ApplyW(cur, ev) == {t \in cur : ~\E d \in SeqToSet(ev.dels) : SameKey(t, d)} \cup SeqToSet(ev.wrs)
+TrApiWrite ==
+  /\ IsEvent("ApiWrite")
+  /\ stored' = ApplyW(stored, Ev1)
+  /\ UNCHANGED <<model, bad, counts, judged, skipped>>
+
+\* every version of the store since the last Setup, recomputed from the trace prefix
+RECURSIVE VersFrom(_, _, _)
+VersFrom(i, cur, acc) ==
+  IF i >= l THEN acc
+  ELSE LET e == Trace[i] IN
+       IF e.e = "Setup" THEN VersFrom(i + 1, SeqToSet(e.tuples), {SeqToSet(e.tuples)})
+       ELSE IF e.e = "ApiWrite" THEN VersFrom(i + 1, ApplyW(cur, e), acc \cup {ApplyW(cur, e)})
+       ELSE VersFrom(i + 1, cur, acc)
+versions == VersFrom(1, {}, {{}})
+
+\* A Check event may also carry "stale" = "ok" (cache checks C11): the request was issued
+\* when the caches are allowed to be stale (a write happened and no invalidation run that
+\* started after it has completed yet).  Then the decision must be the reference value of
+\* SOME version of the store since the last Setup ("invalidation never causes a wrong
+\* answer"); without the mark it must be the reference value of the CURRENT store.
 TrCheck ==
   /\ IsEvent("Check")
-  /\ LET c == CheckClass(model, AllTuples(Ev1), Ev1) IN
-     IF "solo" \in DOMAIN Ev1 /\ Ev1.solo # Ev1.got /\ c[1] \in OKs
+  /\ LET c == CheckClass(model, AllTuples(Ev1), Ev1)
+         staleOK == /\ "stale" \in DOMAIN Ev1 /\ Ev1.stale = "ok" /\ Ev1.got \in {"T", "F"}
+                    /\ \E V \in versions : Holds(model, V \cup SeqToSet(Ev1.ctxt), Ev1.ctx, Ev1.o, Ev1.r, Ev1.u) = Ev1.got
+     IN
+     IF c[1] \notin OKs /\ staleOK THEN Judge("OK_STALE_PERMITTED", c[2], Ev1.eng)
+     ELSE IF "solo" \in DOMAIN Ev1 /\ Ev1.solo # Ev1.got /\ c[1] \in OKs
      THEN Judge("BAD_DIFFERS_FROM_STANDALONE", c[2], Ev1.eng)
      ELSE Judge(c[1], c[2], Ev1.eng)
   /\ UNCHANGED <<model, stored>>
@@ -221,7 +263,9 @@ ListObjectsClass(M, TS, ev) ==
             ELSE IF ev.errk = "hang" /\ HasTypeCycle(M, ev.t, ev.r) THEN <<"KF_PipelineCycleHang", "">>
             ELSE <<"BAD_LO_ERR", ToString(R)>>
      ELSE IF Len(ev.got) # Cardinality(X) THEN <<"BAD_LO_DUP", ToString(R)>>
-     ELSE IF ~(X \subseteq R) THEN <<"BAD_LO_UNSOUND", ToString(R)>>
+     ELSE IF ~(X \subseteq R) THEN
+            (IF \A i \in (X \ R) : i \in ids /\ val[i] = "F" /\ MixedCondPair(M, TS, ev.ctx, [t |-> ev.t, id |-> i], ev.r, ev.u)
+             THEN <<"KF_Weight2MixedCondSameObject", ToString(R)>> ELSE <<"BAD_LO_UNSOUND", ToString(R)>>)
      ELSE IF ev.limit = 0 \/ Cardinality(R) < ev.limit THEN
             IF X = R THEN <<"OK_LO", "">>
             ELSE IF \A i \in R \ X : kf(i) THEN <<"KF_ExclSubtractCycle", ToString(R)>>
@@ -231,9 +275,17 @@ ListObjectsClass(M, TS, ev) ==
           ELSE IF \A i \in R \ X : kf(i) THEN <<"KF_ExclSubtractCycle", ToString(R)>>
           ELSE <<"BAD_LO_LIMIT", ToString(R)>>
 
+LORef(M, TS, ev) ==
+  LET ids == ObjIds(TS, ev.t) \cup (IF ev.u.t = ev.t /\ ev.u.id # "*" THEN {ev.u.id} ELSE {})
+  IN {i \in ids : Holds(M, TS, ev.ctx, [t |-> ev.t, id |-> i], ev.r, ev.u) = "T"}
+
 TrListObjects ==
   /\ IsEvent("ListObjects")
-  /\ LET c == ListObjectsClass(model, AllTuples(Ev1), Ev1) IN Judge(c[1], c[2], Ev1.eng)
+  /\ LET c == ListObjectsClass(model, AllTuples(Ev1), Ev1)
+         staleOK == /\ "stale" \in DOMAIN Ev1 /\ Ev1.stale = "ok" /\ ~Ev1.err /\ Ev1.limit = 0
+                    /\ \E V \in versions : SeqToSet(Ev1.got) = LORef(model, V \cup SeqToSet(Ev1.ctxt), Ev1)
+     IN IF c[1] \notin OKs /\ staleOK THEN Judge("OK_STALE_PERMITTED", c[2], Ev1.eng)
+        ELSE Judge(c[1], c[2], Ev1.eng)
   /\ UNCHANGED <<model, stored>>
 
 ---------------------------------------------------------------------------
@@ -327,7 +379,7 @@ TrEnd ==
   /\ PrintT(<<"VERIF", "END", ToJson([l |-> l, judged |-> judged, skipped |-> skipped, bad |-> bad, counts |-> counts])>>)
   /\ UNCHANGED <<model, stored, bad, counts, judged, skipped>>
 
-Next == TrSetup \/ TrCheck \/ TrV2Check \/ TrListObjects \/ TrListUsers \/ TrExpand \/ TrStateDump \/ TrBatch \/ TrEnd
+Next == TrSetup \/ TrApiWrite \/ TrCheck \/ TrV2Check \/ TrListObjects \/ TrListUsers \/ TrExpand \/ TrStateDump \/ TrBatch \/ TrEnd
 
 Spec == Init /\ [][Next]_vars
 
